@@ -51,7 +51,8 @@ ASSUMPTIONS = ['"major number" is the first number of the release segment (epoch
                'suffix spellings other than (a|alpha|b|beta|rc)<digits>, components above 999, signs, blanks, '
                'leading zeros, empty components and non-ASCII digits are DONT-CARE (only: no exception other than '
                'ValueError)']
-SHARDS = {'quick': 1, 'thorough': 16}
+INTERPRETER_FLAGS = [[], ['-O'], [], ['-bb']]
+SHARDS = {'quick': 4, 'thorough': 16}
 
 GRID = [0, 1, 9, 10, 99, 100, 999]
 SUFFIX_NAMES = ['a', 'alpha', 'b', 'beta', 'rc']
